@@ -1,7 +1,7 @@
-(* C20 — theorems (statements in full; proofs in ProofsA..D). The model follows /repo after the
+(* C20 — theorems (statements in full; proofs in ProofsA..K: I = exact PEX delta and reachable invariants, J = list cap, K = no internal_error, pex_exact_full). The model follows /repo after the
    nine C20 fix: commits (025b717 6c29d69 941ab7d a355167 e099dce 1b429d0 0a72c3c c72865a 6e820e7). *)
 From Coq Require Import List NArith ZArith Bool Sorting.Sorted.
-From LTV.C20 Require Import ParamsGen Model ProofsA ProofsB ProofsC ProofsD ProofsE ProofsG ProofsH Fetcher FetcherX.
+From LTV.C20 Require Import ParamsGen Model ProofsA ProofsB ProofsC ProofsD ProofsE ProofsG ProofsH ProofsI ProofsJ ProofsK Fetcher FetcherX.
 Import ListNotations.
 Local Open Scope N_scope.
 
@@ -95,8 +95,8 @@ Print Assumptions parse_handshake_pex.
    round over at most 200 listed peers yields m_ut_pex_list, a delta 'added' and an initial 'added'
    (also when the initial buffer is NOT regenerated because nothing was added or removed) whose
    every entry has the wire bytes of a currently connected peer with a non-zero listen port;
-   entries are whole 6-byte records by construction (list entry). The > 200 branch (cap + re-sort)
-   is covered by exact correspondence on unit-level rounds, not by this theorem. *)
+   entries are whole 6-byte records by construction (list entry). This statement has the <= 200 hypothesis and no
+   domain hypothesis; pex_exact_full below removes the cap hypothesis (for op lists with peer indices < 65536). *)
 Theorem pex_exact : forall fx priv m minp ops d1,
   let d := final_state fx (start fx priv m minp) ops in
   do_peer_exchange fx d = DpeOk d1 ->
@@ -189,20 +189,146 @@ Theorem set_diff_sound : forall fx a b, asc_strict fx a -> asc fx b ->
 Proof. exact ProofsH.set_diff_sound. Qed.
 Print Assumptions set_diff_sound.
 
-(* PEX 'dropped' exactness, PARTIAL: proved for one round over at most 200 listed peers under two
-   hypotheses that are themselves preserved by such rounds (pex_list_strict_after_round) but are
-   not yet carried through all ops as reachable-state invariants: m_ut_pex_list strictly ascending,
-   and no two connections of one peer. Every dropped entry was listed and has the wire bytes of no
-   currently connected peer with a port. The > 200 branch (cap + re-sort) remains tied by exact
-   correspondence on the unit-level rounds only. *)
-Theorem pex_dropped_exact_partial : forall fx d d1 a r e,
-  do_peer_exchange fx d = DpeOk d1 ->
-  N.of_nat (length (sort_entries fx (current_entries (d_conns d)))) <= Params.c20_max_pex_list ->
-  asc_strict fx (d_list d) ->
+(* ---- the PEX delta is EXACT (ProofsI). "In domain": peer indices below 65536, the range on which the
+   address model 10.0.(k mod 256).(k / 256) is injective (needed only for the numeric order policy). *)
+
+(* std::set_difference is complete: whatever has no counterpart (same wire bytes) in b is kept *)
+Theorem set_diff_complete : forall fx a b e, In e a -> (forall e', In e' b -> ~ same_entry fx e e') -> In e (set_diff fx a b).
+Proof. exact ProofsI.set_diff_complete. Qed.
+Print Assumptions set_diff_complete.
+
+(* one round, ANY number of listed peers (also the > 200 branch: 'dropped' is computed before the cap):
+   every dropped entry was listed and has the wire bytes of no currently connected peer with a port.
+   (This is the former pex_dropped_exact_partial without its cap hypothesis.) *)
+Theorem pex_dropped_exact_round : forall fx d d1 a r e,
+  do_peer_exchange fx d = DpeOk d1 -> asc_strict fx (d_list d) ->
   d_delta d1 = Some (a, r) -> In e r ->
   In e (d_list d) /\ forall e', In e' (sort_entries fx (current_entries (d_conns d))) -> ~ same_entry fx e e'.
-Proof. exact ProofsH.pex_dropped_exact. Qed.
-Print Assumptions pex_dropped_exact_partial.
+Proof. exact ProofsI.dpe_dropped_sound. Qed.
+Print Assumptions pex_dropped_exact_round.
+
+(* the invariants the partial theorem had as hypotheses hold in EVERY reachable state, for every op list
+   and every order policy, including after rounds that took the > 200 branch (cap + re-sort):
+   m_ut_pex_list is strictly ascending and no peer has two connections *)
+Theorem pex_list_strict_reachable : forall fx priv m minp ops, Forall op_in_domain ops ->
+  let d := final_state fx (start fx priv m minp) ops in
+  asc_strict fx (d_list d) /\ NoDup (map c_peer (d_conns d)).
+Proof. exact ProofsJ.pex_list_strict_reachable. Qed.
+Print Assumptions pex_list_strict_reachable.
+
+(* m_ut_pex_list stays strictly ascending over a round in BOTH branches *)
+Theorem pex_list_strict_round : forall fx d d1,
+  do_peer_exchange fx d = DpeOk d1 -> asc_strict fx (d_list d) ->
+  NoDup (map (fun c => key_addr fx (c_peer c)) (d_conns d)) -> asc_strict fx (d_list d1).
+Proof. exact ProofsI.dpe_list_strict. Qed.
+Print Assumptions pex_list_strict_round.
+
+(* pex_dropped_exact, FULL: for every reachable state (any op list in the domain, any variant, any order
+   policy, any number of peers), the 'dropped' set of the delta a round produces is EXACTLY the listed
+   entries that have the wire bytes of no currently connected peer with a listen port *)
+Theorem pex_dropped_exact : forall fx priv m minp ops d1 a r e, Forall op_in_domain ops ->
+  let d := final_state fx (start fx priv m minp) ops in
+  do_peer_exchange fx d = DpeOk d1 -> d_delta d1 = Some (a, r) ->
+  (In e r <-> In e (d_list d) /\ forall e', In e' (sort_entries fx (current_entries (d_conns d))) -> ~ same_entry fx e e').
+Proof. exact ProofsJ.pex_dropped_exact. Qed.
+Print Assumptions pex_dropped_exact.
+
+(* ... and a round with such an entry does produce a delta (no reachability needed) *)
+Theorem pex_dropped_complete : forall fx d d1 e,
+  do_peer_exchange fx d = DpeOk d1 ->
+  In e (d_list d) -> (forall e', In e' (sort_entries fx (current_entries (d_conns d))) -> ~ same_entry fx e e') ->
+  exists a r, d_delta d1 = Some (a, r) /\ In e r.
+Proof. exact ProofsI.dpe_dropped_complete. Qed.
+Print Assumptions pex_dropped_complete.
+
+(* pex_added_exact: every 'added' entry of the delta is a current entry not yet listed (any number of peers: over
+   the cap 'added' is a prefix of that set); with at most max_pex_list (200) current entries it is ALL of them *)
+Theorem pex_added_exact : forall fx priv m minp ops d1 a r e, Forall op_in_domain ops ->
+  let d := final_state fx (start fx priv m minp) ops in
+  do_peer_exchange fx d = DpeOk d1 -> d_delta d1 = Some (a, r) ->
+  (In e a -> In e (sort_entries fx (current_entries (d_conns d))) /\ forall e', In e' (d_list d) -> ~ same_entry fx e e') /\
+  (N.of_nat (length (sort_entries fx (current_entries (d_conns d)))) <= Params.c20_max_pex_list ->
+   In e (sort_entries fx (current_entries (d_conns d))) -> (forall e', In e' (d_list d) -> ~ same_entry fx e e') -> In e a).
+Proof. exact ProofsJ.pex_added_exact. Qed.
+Print Assumptions pex_added_exact.
+
+Theorem pex_added_complete : forall fx d d1 e,
+  do_peer_exchange fx d = DpeOk d1 ->
+  N.of_nat (length (sort_entries fx (current_entries (d_conns d)))) <= Params.c20_max_pex_list ->
+  In e (sort_entries fx (current_entries (d_conns d))) -> (forall e', In e' (d_list d) -> ~ same_entry fx e e') ->
+  exists a r, d_delta d1 = Some (a, r) /\ In e a.
+Proof. exact ProofsI.dpe_added_complete. Qed.
+Print Assumptions pex_added_complete.
+
+(* the shape of the delta in both branches: dropped = list \ current; added = a prefix of current \ list,
+   all of it when at most 200 current entries *)
+Theorem pex_delta_shape : forall fx d d1 a r,
+  do_peer_exchange fx d = DpeOk d1 -> d_delta d1 = Some (a, r) ->
+  r = set_diff fx (d_list d) (sort_entries fx (current_entries (d_conns d))) /\
+  exists k, a = firstn k (set_diff fx (sort_entries fx (current_entries (d_conns d))) (d_list d)) /\
+            (N.of_nat (length (sort_entries fx (current_entries (d_conns d)))) <= Params.c20_max_pex_list ->
+             a = set_diff fx (sort_entries fx (current_entries (d_conns d))) (d_list d)).
+Proof. exact ProofsI.dpe_delta_shape. Qed.
+Print Assumptions pex_delta_shape.
+
+(* the size cap max_pex_list (200): m_ut_pex_list never has more than 200 entries — in every reachable state, and
+   after every round from one, in particular after the capped branch (trim 'added', merge, re-sort) *)
+Theorem pex_list_capped_reachable : forall fx priv m minp ops, Forall op_in_domain ops ->
+  N.of_nat (length (d_list (final_state fx (start fx priv m minp) ops))) <= Params.c20_max_pex_list.
+Proof. exact ProofsJ.pex_list_capped_reachable. Qed.
+Print Assumptions pex_list_capped_reachable.
+
+Theorem pex_round_capped : forall fx priv m minp ops d1, Forall op_in_domain ops ->
+  let d := final_state fx (start fx priv m minp) ops in
+  do_peer_exchange fx d = DpeOk d1 -> N.of_nat (length (d_list d1)) <= Params.c20_max_pex_list.
+Proof. exact ProofsJ.pex_round_capped. Qed.
+Print Assumptions pex_round_capped.
+
+(* one round, both branches: strictly ascending list and distinct peers in => at most 200 entries out *)
+Theorem pex_list_cap_round : forall fx d d1,
+  do_peer_exchange fx d = DpeOk d1 -> asc_strict fx (d_list d) ->
+  NoDup (map (fun c => key_addr fx (c_peer c)) (d_conns d)) ->
+  N.of_nat (length (d_list d1)) <= Params.c20_max_pex_list.
+Proof. exact ProofsJ.dpe_list_cap. Qed.
+Print Assumptions pex_list_cap_round.
+
+(* std::set_difference on strictly ascending ranges is the filter "no counterpart in b"; the counting identity
+   behind the cap: |list /\ current| + |current \ list| = |current| *)
+Theorem set_diff_is_filter : forall fx a b, asc_strict fx a -> asc_strict fx b ->
+  set_diff fx a b = filter (fun e => negb (has_cp fx b e)) a.
+Proof. exact ProofsJ.set_diff_filter. Qed.
+Print Assumptions set_diff_is_filter.
+
+Theorem set_diff_count : forall fx l c, asc_strict fx l -> asc_strict fx c ->
+  (length (set_diff fx l (set_diff fx l c)) + length (set_diff fx c l) = length c)%nat.
+Proof. exact ProofsJ.set_diff_count. Qed.
+Print Assumptions set_diff_count.
+
+(* the internal_error of do_peer_exchange ("added.size() < current.size() - max_pex_list") is UNREACHABLE: no op list
+   in the domain brings the download into a state where a peer-exchange round throws *)
+Theorem pex_no_internal_error_reachable : forall fx priv m minp ops, Forall op_in_domain ops ->
+  do_peer_exchange fx (final_state fx (start fx priv m minp) ops) <> DpeInternalError.
+Proof. exact ProofsK.pex_no_internal_error_reachable. Qed.
+Print Assumptions pex_no_internal_error_reachable.
+
+(* pex_exact WITHOUT the cap hypothesis (any number of peers, also the > 200 branch: trim, merge, re-sort): in every
+   reachable state (op list in the domain) a round yields a list, a delta 'added' and an initial 'added' whose every
+   entry has the wire bytes of a currently connected peer with a non-zero listen port *)
+Theorem pex_exact_full : forall fx priv m minp ops d1, Forall op_in_domain ops ->
+  let d := final_state fx (start fx priv m minp) ops in
+  do_peer_exchange fx d = DpeOk d1 ->
+  (forall e, In e (d_list d1) -> connected_with_port fx d e) /\
+  (forall a r e, d_delta d1 = Some (a, r) -> In e a -> connected_with_port fx d e) /\
+  (forall a r e, d_initial d1 = Some (a, r) -> In e a -> connected_with_port fx d e).
+Proof. exact ProofsK.pex_exact_full. Qed.
+Print Assumptions pex_exact_full.
+
+(* no delta => every listed entry still has a connected peer with those wire bytes *)
+Theorem pex_no_delta_nothing_dropped : forall fx d d1,
+  do_peer_exchange fx d = DpeOk d1 -> d_delta d1 = None ->
+  forall e, In e (d_list d) -> exists e', In e' (sort_entries fx (current_entries (d_conns d))) /\ same_entry fx e e'.
+Proof. exact ProofsJ.pex_delta_none_iff_nothing_dropped. Qed.
+Print Assumptions pex_no_delta_nothing_dropped.
 
 Theorem pex_list_strict_after_round : forall fx d d1,
   do_peer_exchange fx d = DpeOk d1 ->
